@@ -760,6 +760,8 @@ def run(chk: core.Check):
         "hand-written model theories/C06/Model_C06.v of serialization.py, quote_all/jsonify/is_valid_path, prepare_path/prepare_url/prepare_headers "
         "and the decoders written from RFC 3986 / RFC 3629 / RFC 6570 / the OpenAPI 3 style table",
         "correspondence harness harness/props/c06.py (encoders, Coq output parser, canonicalisers, generators, independent Python decoders)",
+        "configuration-history stage: recording WSGI / ASGI applications and the loopback server as observers of the path on the wire, the oracle's own bookkeeping "
+        "of the configuration in force (last value written per field) and its plain concatenation <base path> + <filled template>",
         "requests/urllib3 (query-string encoding of dict/list params, cookie header, header transmission), http.server (loopback) and Hypothesis "
         "(map/filter composition) as exercised by the oracle stage: tested per run, not proved",
     ]
@@ -770,6 +772,10 @@ def run(chk: core.Check):
         "the base URL has no query, fragment or percent-escape (prepare_url unquotes the whole joined URL)",
         "urllib.parse.quote/unquote/urljoin of CPython 3.12 (modelled by hand from their source; validated by the prepare_url correspondence)",
         "a None inside an exploded query array is dropped by requests itself (observed; such arrays are not generated in the oracle stage)",
+        "configuration histories: a base URL / server URL is prefix ++ path with prefix empty or scheme://host[:port] (urlsplit is not modelled; the harness "
+        "builds the texts from the two parts); werkzeug's test client, starlette's TestClient and requests deliver the path they are given (dot segments "
+        "that urljoin leaves in the URL are removed by requests/urllib3: such observations are skipped and counted); path values in histories are free of "
+        "'?', '#', '%'; server URL variables are not used",
     ]
     chk.rule = (
         "one PRNG (VERIF_SEED). serializers: 1-3 OpenAPI3/Swagger2 parameter definitions (every location x style x explode in {absent,true,false} x "
@@ -778,7 +784,10 @@ def run(chk: core.Check):
         "doubled and stray braces; prepare_url: base paths with/without trailing slash, empty and dot segments x templates x explicit values; headers: "
         "case/explicit header dicts with names differing only by case; oracle: one parameter per location with declared style, value of the declared type, "
         "optional explicit headers and JSON/text body, sent by case.call() to the loopback server. non-trivial = serializer changes the container / value needs escaping; "
-        "distinct by canonical JSON"
+        "distinct by canonical JSON. histories: ONE schema object (Swagger 2 basePath / OpenAPI 3 servers), 5-13 events: configure(base_url) / base_url assignment "
+        "(none, empty text, loopback / localhost / relative prefix x base paths none, '/', '/api', '/api/v1/', unicode, dotted version; 15% odd: double slashes, dot "
+        "segments), configure(location), servers/basePath edits, configure(app) switching requests / WSGI / ASGI, sends with a fresh (get_all_operations) or cached "
+        "(schema[path][method]) operation over 6 templates, full_path and base_path reads; non-trivial = a send after a re-configuration"
     )
     chk.proofs(["Common", "C06"])
     rng = chk.rng
@@ -802,6 +811,7 @@ def run(chk: core.Check):
             chk, rng, rec, (40 if quick else 500) * (5 if chk.broken else 1), [c["query"] for c in corpus if c.get("stage") == "multi_query"]
         )
         chk.stages["oracle_coverage_phase"] = oracle_coverage_phase(chk, rng, 12 if quick else 120)
+        corr_histories(chk, rng, rec, (120 if quick else 1500) * (4 if chk.broken else 1), [c["history"] for c in corpus if c.get("stage") == "history"])
         for f in chk.findings:
             chk.known(f, witness_fails(f["witness"], rec))
     finally:
@@ -1465,6 +1475,442 @@ def _same_float(text, value):
 
 
 # ----------------------------------------------------------------------------------------
+# configuration histories: ONE schema object is re-configured in place between sends (requests, WSGI, ASGI)
+# ----------------------------------------------------------------------------------------
+H_TEMPLATES = ["/u/{id}", "/", "/items", "/a/{id}/b/", "/{id}", "/x/{id}/{k}"]
+H_VALUES = ["1", "john", "a b", "é", "v1.0", "x-y_z~", "A", "0"]
+H_VALUES_ODD = ["..", ".", "", "a/b", "a//b", "../x"]
+H_BASE_PATHS = ["", "/", "/api", "/api/", "/api/v1", "/api/v1/", "/v2", "/a/b", "/é", "/v1.0/", "/staging/"]
+H_BASE_PATHS_ODD = ["/api//", "/a/../b/", "/a/./b", "/a//b/", "/..", "/api///"]
+H_SPEC_PATHS = ["/srv", "/srv/", "/", "", "/s/v3", "/bp/"]
+H_TRANSPORTS = {"requests": "TRequests", "wsgi": "TWsgi", "asgi": "TAsgi"}
+LOCALHOST = "http://localhost"
+
+
+class HistorySink:
+    """A recording WSGI application, a recording ASGI application and the loopback server: each reports the decoded path it received."""
+
+    def __init__(self, rec):
+        self.rec = rec
+        self.seen = []
+
+        def wsgi_app(environ, start_response):
+            self.seen.append(environ.get("PATH_INFO", "").encode("latin-1").decode("utf-8", "replace"))
+            start_response("200 OK", [("Content-Type", "application/json")])
+            return [b"{}"]
+
+        async def asgi_app(scope, receive, send):
+            if scope["type"] == "lifespan":
+                while True:
+                    message = await receive()
+                    if message["type"] == "lifespan.startup":
+                        await send({"type": "lifespan.startup.complete"})
+                    elif message["type"] == "lifespan.shutdown":
+                        await send({"type": "lifespan.shutdown.complete"})
+                        return
+            self.seen.append(scope["path"])
+            await send({"type": "http.response.start", "status": 200, "headers": [(b"content-type", b"application/json")]})
+            await send({"type": "http.response.body", "body": b"{}"})
+
+        self.apps = {"requests": None, "wsgi": wsgi_app, "asgi": asgi_app}
+
+
+def c_burl(u) -> str:
+    return "{| bu_prefix := %s; bu_path := %s |}" % (cstr(u[0]), cstr(u[1]))
+
+
+def c_spec(sp) -> str:
+    if sp["version"] == 2:
+        return "(SpV2 %s)" % copt(None if sp["base_path"] is None else cstr(sp["base_path"]), "str")
+    return "(SpV3 %s)" % clist([c_burl(u) for u in sp["servers"]], "burl")
+
+
+def c_event(ev, loop) -> str:
+    kind = ev[0]
+    if kind == "base":
+        return "(EvBase %s)" % copt(None if ev[1] is None else c_burl(_loop(ev[1], loop)), "burl")
+    if kind == "loc":
+        return "(EvLoc %s)" % cstr(_loop((ev[1], ""), loop)[0])
+    if kind == "spec":
+        return "(EvSpec %s)" % c_spec(ev[1])
+    if kind == "app":
+        return "(EvApp %s)" % H_TRANSPORTS[ev[1]]
+    if kind == "send":
+        return "(EvSend %s %s %s)" % ("Fresh" if ev[1] == "fresh" else "Cached", cstr(ev[2]), c_item(ev[3]))
+    if kind == "full_path":
+        return "(EvFullPath %s)" % cstr(ev[1])
+    if kind == "base_path":
+        return "EvBasePath"
+    raise ValueError(kind)
+
+
+def _loop(u, loop):
+    """Histories are stored with the placeholder prefix LOOP for the loopback server (its port changes per run)."""
+    return (loop if u[0] == "LOOP" else u[0], u[1])
+
+
+def c_history(hist, loop) -> str:
+    cfg = "{| cf_base := None; cf_loc := (@nil N); cf_spec := %s; cf_app := TRequests |}" % c_spec(hist["spec"])
+    return "run_history (init_state %s) %s" % (cfg, clist([c_event(e, loop) for e in hist["events"]], "event"))
+
+
+def p_obs(t):
+    if isinstance(t, str):
+        return [t]
+    if t[0] == "OSent":
+        return ["OSent", pstr(t[1]), pstr(t[2])]
+    if t[0] == "OPath":
+        return ["OPath", pstr(t[1])]
+    raise ValueError(t)
+
+
+def history_raw_schema(spec):
+    paths = {}
+    for t in H_TEMPLATES:
+        params = [{"name": n, "in": "path", "required": True, **({"type": "string"} if spec["version"] == 2 else {"schema": {"type": "string"}})}
+                  for n in ("id", "k") if "{%s}" % n in t]
+        paths[t] = {"get": {"parameters": params, "responses": {"200": {"description": "ok"}}}}
+    if spec["version"] == 2:
+        raw = {"swagger": "2.0", "info": {"title": "t", "version": "1"}, "paths": paths}
+    else:
+        raw = {"openapi": "3.0.2", "info": {"title": "t", "version": "1"}, "paths": paths}
+    apply_spec(raw, spec)
+    return raw
+
+
+def apply_spec(raw, spec):
+    if spec["version"] == 2:
+        raw.pop("basePath", None)
+        if spec["base_path"] is not None:
+            raw["basePath"] = spec["base_path"]
+    else:
+        raw.pop("servers", None)
+        if spec["servers"]:
+            raw["servers"] = [{"url": u[0] + u[1]} for u in spec["servers"]]
+
+
+def run_history_real(hist, sink):
+    """The history on a real schema object; one observation per event, shaped like the model's `obs`."""
+    import schemathesis
+
+    loop = sink.rec.url
+    raw = history_raw_schema(hist["spec"])
+    schema = schemathesis.openapi.from_dict(raw)
+    out = []
+    transport = "requests"
+    for i, ev in enumerate(hist["events"]):
+        kind = ev[0]
+        if kind == "base":
+            text = None if ev[1] is None else "".join(_loop(ev[1], loop))
+            if i % 2:
+                schema.base_url = text
+            else:
+                schema.configure(base_url=text)
+            out.append(["ONone"])
+        elif kind == "loc":
+            prefix = _loop((ev[1], ""), loop)[0]
+            schema.configure(location=prefix + "/openapi.json" if prefix else None)
+            out.append(["ONone"])
+        elif kind == "spec":
+            apply_spec(schema.raw_schema, ev[1])
+            out.append(["ONone"])
+        elif kind == "app":
+            transport = ev[1]
+            schema.configure(app=sink.apps[transport])
+            out.append(["ONone"])
+        elif kind == "base_path":
+            out.append(["OPath", schema.base_path])
+        elif kind == "full_path":
+            if i % 2:
+                out.append(["OPath", schema.get_full_path(ev[1])])
+            else:  # (a fresh operation: schema[path][method] would put an operation into the cache)
+                out.append(["OPath", [r.ok() for r in schema.get_all_operations() if r.ok().path == ev[1]][0].full_path])
+        elif kind == "send":
+            _, how, tmpl, params = ev
+            if how == "fresh":
+                (op,) = [r.ok() for r in schema.get_all_operations() if r.ok().path == tmpl]
+            else:
+                op = schema[tmpl]["GET"]
+            if op.app is not sink.apps[transport]:
+                out.append(["OUnmodelled"])
+                continue
+            case = op.Case(path_parameters=dict(params))
+            sink.rec.take()
+            del sink.seen[:]
+            try:
+                response = case.call()
+            except Exception as exc:  # noqa: BLE001
+                out.append(["ORaises", type(exc).__name__])
+                continue
+            if transport == "requests":
+                got = sink.rec.take()
+                assert len(got) == 1, len(got)
+                wire = py_pct_decode(got[0]["target"].partition("?")[0], False)
+            else:
+                assert len(sink.seen) == 1, len(sink.seen)
+                wire = sink.seen[0]
+            out.append(["OSent", wire, py_pct_decode(response.request.url, False)])
+        else:
+            raise ValueError(kind)
+    return out
+
+
+def _benign_path(path: str, base: bool) -> bool:
+    """A path whose join is beyond dispute: no empty, '.', '..' segments (a base path is empty or absolute; a trailing slash is fine)."""
+    if base and path in ("", "/"):
+        return True
+    if base and not path.startswith("/"):
+        return False
+    body = path[1:] if path.startswith("/") else path
+    if body.endswith("/"):
+        body = body[:-1]
+    if not base and body == "":
+        return True
+    return all(seg not in ("", ".", "..") for seg in body.split("/"))
+
+
+def history_oracle(hist, real, loop):
+    """Independent of the model: the configuration in force is the LAST value written to each field, and every send must go to
+    <base path of that configuration> + <filled template>, whatever was configured, read or sent before.
+    Yields (step, region_or_None, what, detail) for every send that does not."""
+    from urllib.parse import urlsplit
+
+    base, loc, spec, app = None, "", hist["spec"], "requests"
+    made_under = {}  # template -> (base URL text the cached operation was made with, app)
+    for i, (ev, ob) in enumerate(zip(hist["events"], real)):
+        kind = ev[0]
+        if kind == "base":
+            base = None if ev[1] is None else "".join(_loop(ev[1], loop))
+        elif kind == "loc":
+            loc = _loop((ev[1], ""), loop)[0]
+        elif kind == "spec":
+            spec = ev[1]
+        elif kind == "app":
+            app = ev[1]
+        if kind not in ("send", "full_path", "base_path"):
+            continue
+        if base is not None:
+            configured, shape_ok = urlsplit(base).path, base != ""
+        elif spec["version"] == 2:
+            configured, shape_ok = ("/" if spec["base_path"] is None else spec["base_path"]), True
+        else:
+            configured, shape_ok = (urlsplit("".join(spec["servers"][0])).path if spec["servers"] else "/"), True
+        shape_ok = shape_ok and _benign_path(configured, True) and (base is not None or configured.startswith("/"))
+        base_path = configured if configured.endswith("/") else configured + "/"
+        if kind == "base_path":
+            if shape_ok and ob != ["OPath", base_path]:
+                yield i, None, "schema.base_path is not the base path of the configured base URL", {"expected": base_path, "got": ob}
+            continue
+        if kind == "full_path":
+            if shape_ok and _benign_path(ev[1], False) and ob != ["OPath", base_path + ev[1].lstrip("/")]:
+                yield i, None, "full_path is not the configured base path joined with the path template", {"expected": base_path + ev[1].lstrip("/"), "got": ob}
+            continue
+        _, how, tmpl, params = ev
+        current = (base, app) if base is not None else (None, loc, configured, app)  # what the base URL of an operation made now depends on
+        if how == "cached":
+            made = made_under.setdefault(tmpl, current)
+        else:
+            made = current
+        if ob[0] != "OSent":
+            continue
+        try:
+            formatted = tmpl.format(**params)
+        except (KeyError, IndexError, ValueError):
+            continue
+        if not _benign_path(formatted, False):
+            continue
+        expected = base_path + formatted.lstrip("/")
+        wire, reported = ob[1], urlsplit(ob[2]).path
+        detail = {"transport": app, "configured_base_url": base, "servers_or_basePath": spec, "template": tmpl, "path_parameters": params,
+                  "expected_path": expected, "path_on_the_wire": wire, "reported_request_url": ob[2]}
+        if not shape_ok:
+            # an empty base URL text, empty or dot segments in the base path: what the join should be is open to dispute, but the
+            # request that is reported must still be the request that was sent
+            if wire != reported:
+                yield i, "base_url_shape", f"the request reported for the {app} transport (response.request.url) is not the one that was sent", detail
+            continue
+        if made != current and not (app == "wsgi" and wire != expected):
+            # (the WSGI path comes from the schema, not from the operation: a wrong WSGI path is never excused by an old operation)
+            region = "stale_operation"
+        else:
+            region = None
+        if wire != expected:
+            yield i, region, f"the {app} request did not go to <configured base URL> + <filled path template>", detail
+        elif reported != expected:
+            yield i, region, f"the request reported for the {app} transport (response.request.url) is not the one that was sent", detail
+
+
+def rand_burl(rng, prefixes, odd=0.15):
+    prefix = rng.choice(prefixes)
+    path = rng.choice(H_BASE_PATHS_ODD) if rng.random() < odd else rng.choice(H_BASE_PATHS)
+    return (prefix, path)
+
+
+def rand_spec(rng, version):
+    if version == 2:
+        return {"version": 2, "base_path": rng.choice([None, "/bp", "/bp/", "/", "/s/v2", "/s//"])}
+    n = rng.choice([0, 1, 1, 1, 2])
+    return {"version": 3, "servers": [(rng.choice(["http://h", "https://x.io", "", LOCALHOST]), rng.choice(H_SPEC_PATHS + ["/s//"])) for _ in range(n)]}
+
+
+def rand_history(rng, length=None):
+    version = rng.choice([2, 3, 3])
+    hist = {"spec": rand_spec(rng, version), "events": []}
+    # generator-side bookkeeping, only to keep the requests transport away from hosts that are not the loopback server
+    base, loc, app = None, "", "requests"
+    cached = {}
+
+    def prefix_now():
+        return base[0] if base is not None else loc
+
+    events = hist["events"]
+    app = rng.choice(list(H_TRANSPORTS))
+    events.append(("app", app))
+    for _ in range(length or rng.choice([4, 6, 8, 10, 12])):
+        r = rng.random()
+        if r < 0.28:
+            if rng.random() < 0.12:
+                base = None if rng.random() < 0.7 else ("", "")
+            else:
+                base = rand_burl(rng, ["LOOP", "LOOP", "LOOP", "", LOCALHOST])
+            events.append(("base", base))
+        elif r < 0.33:
+            loc = rng.choice(["", "LOOP", LOCALHOST])
+            events.append(("loc", loc))
+        elif r < 0.40:
+            events.append(("spec", rand_spec(rng, version)))
+        elif r < 0.48:
+            app = rng.choice(list(H_TRANSPORTS))
+            events.append(("app", app))
+        elif r < 0.56:
+            events.append(("full_path", rng.choice(H_TEMPLATES)))
+        elif r < 0.60:
+            events.append(("base_path",))
+        else:
+            tmpl = rng.choice(H_TEMPLATES)
+            how = "cached" if rng.random() < 0.3 else "fresh"
+            snapshot = cached.get(tmpl, (prefix_now(), app)) if how == "cached" else (prefix_now(), app)
+            if snapshot[1] != app:
+                how, snapshot = "fresh", (prefix_now(), app)
+            if app == "requests" and snapshot[0] not in ("", "LOOP"):
+                continue
+            if how == "cached":
+                cached.setdefault(tmpl, snapshot)
+            values = H_VALUES_ODD if rng.random() < 0.12 else H_VALUES
+            events.append(("send", how, tmpl, {n: rng.choice(values) for n in ("id", "k") if "{%s}" % n in tmpl}))
+    return hist
+
+
+def canon_history(hist):
+    return {"spec": hist["spec"], "events": [list(e) for e in hist["events"]]}
+
+
+def load_history(h):
+    def ev(e):
+        e = list(e)
+        if e[0] == "base" and e[1] is not None:
+            e[1] = tuple(e[1])
+        if e[0] == "spec":
+            e[1] = load_spec(e[1])
+        return tuple(e)
+
+    return {"spec": load_spec(h["spec"]), "events": [ev(e) for e in h["events"]]}
+
+
+def load_spec(sp):
+    if sp["version"] == 3:
+        return {"version": 3, "servers": [tuple(u) for u in sp["servers"]]}
+    return dict(sp)
+
+
+def _has_dot_segment(text: str) -> bool:
+    return any(seg in (".", "..") for seg in text.split("/"))
+
+
+def final_configuration(hist, loop):
+    """(configured base path text, undisputed shape?) after the whole history - the oracle's bookkeeping, for the region tie."""
+    from urllib.parse import urlsplit
+
+    base, spec = None, hist["spec"]
+    for ev in hist["events"]:
+        if ev[0] == "base":
+            base = None if ev[1] is None else "".join(_loop(ev[1], loop))
+        elif ev[0] == "spec":
+            spec = ev[1]
+    if base is not None:
+        configured, ok = urlsplit(base).path, base != ""
+    elif spec["version"] == 2:
+        configured, ok = ("/" if spec["base_path"] is None else spec["base_path"]), True
+    else:
+        configured, ok = (urlsplit("".join(spec["servers"][0])).path if spec["servers"] else "/"), True
+    return configured, ok and _benign_path(configured, True) and (base is not None or configured.startswith("/"))
+
+
+def c_final_cfg_ok(hist, loop) -> str:
+    cfg = "{| cf_base := None; cf_loc := (@nil N); cf_spec := %s; cf_app := TRequests |}" % c_spec(hist["spec"])
+    return "cfg_ok (final_cfg %s %s)" % (cfg, clist([c_event(e, loop) for e in hist["events"]], "event"))
+
+
+def corr_histories(chk, rng, rec, n, corpus=()):
+    """Model (run_history, evaluated in Coq) vs the real schema object, step by step; then the oracle on the real observations."""
+    sink = HistorySink(rec)
+    loop = rec.url
+    hists = [load_history(h) for h in corpus] + [rand_history(rng) for _ in range(n)]
+    models = core.coq_eval(IMPORTS, [c_history(h, loop) for h in hists], shard=60)
+    stats = {"histories": len(hists), "events": 0, "sends": {"requests": 0, "wsgi": 0, "asgi": 0}, "sends_after_reconfiguration": 0,
+             "raises": 0, "skipped_unmodelled": 0, "oracle_failures_in_listed_regions": 0}
+    for hist, m in zip(hists, models):
+        real = run_history_real(hist, sink)
+        mod = [p_obs(t) for t in m]
+        canon_h = canon_history(hist)
+        stats["events"] += len(real)
+        app, reconfigured, sent_before = "requests", False, False
+        for ev, ob in zip(hist["events"], real):
+            if ev[0] == "app":
+                app = ev[1]
+            if ev[0] in ("base", "spec", "loc") and sent_before:
+                reconfigured = True
+            if ev[0] == "send" and ob[0] == "OSent":
+                stats["sends"][app] += 1
+                stats["sends_after_reconfiguration"] += reconfigured
+                sent_before = True
+            if ob[0] == "ORaises":
+                stats["raises"] += 1
+        chk.seen({"history": canon_h}, reconfigured)
+        for i, (r, mo) in enumerate(zip(real, mod)):
+            if "OUnmodelled" in (r[0], mo[0]):
+                stats["skipped_unmodelled"] += 1
+                continue
+            if r[:1] == ["ORaises"] and mo == ["ORaises"]:
+                continue
+            if mo[0] == "OSent" and any(_has_dot_segment(t) for t in mo[1:]):
+                stats["skipped_unmodelled"] += 1  # requests/urllib3 remove dot segments that urljoin left in the URL (empty relative path)
+                continue
+            if r != mo:
+                chk.disagree("configuration history on one schema object vs Model_C06.run_history",
+                             {"stage": "history", "history": canon_h, "step": i, "event": list(hist["events"][i])}, r, mo)
+                break
+        for i, region, what, detail in history_oracle(hist, real, loop):
+            if region is not None:
+                stats["oracle_failures_in_listed_regions"] += 1
+            chk.fail(what, {"stage": "history", "history": {"spec": hist["spec"], "events": [list(e) for e in hist["events"][: i + 1]]}, "step": i}, detail, region=region)
+            if region is None:
+                break
+    # the region in which the oracle insists on <base path> + <template> must lie inside the region of
+    # C06_history_transports_send_to_current_base_url_partial (cfg_ok, evaluated in Coq on the final configuration)
+    inside = 0
+    for hist, ok in zip(hists, core.coq_eval(IMPORTS, [c_final_cfg_ok(h, loop) for h in hists], shard=100)):
+        configured, undisputed = final_configuration(hist, loop)
+        inside += undisputed
+        if undisputed and not ok:
+            chk.disagree("oracle region of the history stage is not inside Model_C06.cfg_ok", {"stage": "history", "history": canon_history(hist)}, {"configured_base_path": configured, "undisputed": True}, {"cfg_ok": ok})
+    stats["final_configurations_in_theorem_region"] = inside
+    if hists:
+        chk.sample({"history": canon_history(hists[-1]), "observations": run_history_real(hists[-1], sink)})
+    chk.stages["correspondence_and_oracle_configuration_histories"] = stats
+
+
+# ----------------------------------------------------------------------------------------
 # listed findings: canonical witnesses replayed on the implementation
 # ----------------------------------------------------------------------------------------
 def witness_fails(w, rec=None) -> bool:
@@ -1483,6 +1929,10 @@ def witness_fails(w, rec=None) -> bool:
             got = coverage_cases(w["value"], style)
             assert len(got) >= 2, "the witness needs several coverage cases"
             return not all(coverage_case_carries(p, w["value"], style) and coverage_query_carries(q, "v") for p, q in got)
+        if kind == "history":
+            hist = load_history(w["history"])
+            real = run_history_real(hist, HistorySink(rec))
+            return any(region == w["region"] for _, region, _, _ in history_oracle(hist, real, rec.url))
         if kind == "label_falsy":
             from schemathesis.specs.openapi.serialization import label_primitive
 
